@@ -990,6 +990,28 @@ def desugar(rec, prog, stats):
         if t["k"] != "call" or t.get("target") is None:
             continue
         c = t.get("resolved") or t.get("callee")
+        if c == "core::cmp::PartialEq::ne" and len(t["args"]) == 2 and not t["dest"]["proj"] and len(t.get("cargs") or []) == 2 \
+                and t["cargs"][0].get("k") == "adt" and t["cargs"][0] == t["cargs"][1] \
+                and ("<%s as core::cmp::PartialEq>::eq" % t["cargs"][0].get("path")) in prog.fns:
+            # a != b on a crate type with its own `eq` (derived or written): the trait's default `ne` is `!a.eq(b)`
+            eqfn = "<%s as core::cmp::PartialEq>::eq" % t["cargs"][0]["path"]
+            line = t.get("line")
+            n = len(rec["locals"])
+            rec["locals"].append({"k": "bool"})
+            nb = len(rec["blocks"])
+            rec["blocks"].append({"stmts": [{"k": "assign", "place": copy.deepcopy(t["dest"]),
+                                             "rv": {"k": "unop", "op": "Not", "a": {"k": "move", "place": {"local": n, "proj": []}}}, "line": line}],
+                                  "term": {"k": "goto", "target": t["target"]}})
+            t2 = copy.deepcopy(t)
+            t2["callee"] = "core::cmp::PartialEq::eq"
+            t2["resolved"] = eqfn
+            t2["dest"] = {"local": n, "proj": []}
+            t2["target"] = nb
+            t2.pop("fnop", None)
+            blk["term"] = t2
+            stats.setdefault(rec["path"], []).append("desugar:ne")
+            changed = True
+            continue
         if (c or "").endswith("Iterator::collect") and len(t["args"]) == 1 and t["args"][0]["k"] == "move" and not t["args"][0]["place"]["proj"] and not t["dest"]["proj"]:
             # it.map(f).collect::<Result<(), E>>()  ==  it.try_for_each(f): FromIterator for Result<(), E> pulls items until the first Err and
             # returns it, Ok(()) otherwise (the unit collection keeps nothing)
